@@ -201,7 +201,8 @@ where
 
         Ok(Some((
             row.total_operation_count,
-            row.total_header_bytes + row.total_payload_bytes,
+            row.total_header_bytes
+                .saturating_add(row.total_payload_bytes),
         )))
     }
 
